@@ -46,7 +46,7 @@ func IndexStartOptimize(pipe []*gripql.GraphStatement) []*gripql.GraphStatement 
 				newPipe = append(newPipe, pipe[i+1:]...)
 				return IndexStartOptimize(newPipe)
 			}
-			if cond := s.Has.GetCondition(); cond != nil {
+			if cond := s.Has.GetCondition(); cond != nil && jsonpath.GetNamespace(cond.Key) == jsonpath.Current {
 				path := jsonpath.GetJSONPath(cond.Key)
 				switch path {
 				case "$.gid":
@@ -133,9 +133,17 @@ func extractHasVals(h *gripql.GraphStatement_Has) []string {
 				vals = []string{l}
 			}
 		case gripql.Condition_WITHIN:
-			v := val.([]interface{})
+			//anything but a list of strings is left to the has() filter itself
+			v, ok := val.([]interface{})
+			if !ok {
+				return []string{}
+			}
 			for _, x := range v {
-				vals = append(vals, x.(string))
+				l, ok := x.(string)
+				if !ok {
+					return []string{}
+				}
+				vals = append(vals, l)
 			}
 		default:
 			// do nothing
